@@ -1000,8 +1000,14 @@ func (e primaryMismatch) Error() string {
 // When rollbackIfNotExist is false, the caller should be careful with the txnNotFoundErr error.
 func (lr *LockResolver) getTxnStatus(bo *retry.Backoffer, txnID uint64, primary []byte,
 	callerStartTS, currentTS uint64, rollbackIfNotExist bool, forceSyncCommit bool, lockInfo *Lock) (TxnStatus, error) {
-	if s, ok := lr.getResolved(txnID); ok {
-		return s, nil
+	// A pessimistic lock that names itself as the primary is cleaned up by the CheckTxnStatus request itself
+	// (resolvePessimisticLock sends nothing for it), so the request must be sent even if the status of the
+	// transaction is already cached: the cache is keyed by the txn id only and may have been filled through
+	// another primary (a pessimistic lock's primary may not be the real one).
+	selfPrimaryPessimisticLock := lockInfo != nil && lockInfo.IsPessimistic() && bytes.Equal(lockInfo.Key, primary)
+	cachedStatus, cached := lr.getResolved(txnID)
+	if cached && !selfPrimaryPessimisticLock {
+		return cachedStatus, nil
 	}
 
 	metrics.LockResolverCountWithQueryTxnStatus.Inc()
@@ -1089,7 +1095,7 @@ func (lr *LockResolver) getTxnStatus(bo *retry.Backoffer, txnID uint64, primary 
 			}
 
 			status.commitTS = cmdResp.CommitVersion
-			if status.StatusCacheable() {
+			if status.StatusCacheable() && !cached {
 				lr.saveResolved(txnID, status)
 			}
 		}
